@@ -28,12 +28,17 @@ def judge(path):
             h.append(ev)
             out["n"] += 1
             if ev[0] == "V":
-                _, hid, step, cfg, tok, cl, rr, er, mr, rf, ef, mf = ev
+                _, hid, step, cfg, tok, cl, rr, er, mr, rf, ef, mf = ev[:12]
+                pristine = ev[12] if len(ev) > 12 else None
                 prev = h[-2][4] if len(h) > 1 and h[-2][0] == "V" else None
                 out["distinct"].add(("V", cfg, prev, tok, cl, rf))
                 cnt("verify_steps")
                 cnt("verify_accepts" if rf == 0 else "verify_rejects")
-                if (rr == 0) != (rf == 0):
+                if pristine is not None and (rr != 0) != (pristine != 0):
+                    out["viol"].append(("verify-verdict-differs-from-pristine:cfg%d:prev=%s:tok=%s" % (cfg, prev, tok),
+                                        "reused checker returned %d, but the same configuration gave %d on this token before any failing verification happened in the process "
+                                        "(fresh twin now: %d)" % (rr, pristine, rf), dict(history=h[-4:], tok=tok, prev=prev)))
+                elif (rr == 0) != (rf == 0):
                     out["viol"].append(("verify-verdict-differs:cfg%d:prev=%s:tok=%s:%s" % (cfg, prev, tok, "cleared" if cl else "uncleared"),
                                         "reused checker returned %d, fresh twin %d" % (rr, rf), dict(history=h[-4:], tok=tok, prev=prev)))
                 elif bool(er) != bool(ef):
@@ -55,7 +60,7 @@ def judge(path):
                         out["viol"].append(("generate-content-differs:" + key, "header/payload of the reused builder's token differ from the fresh twin's", dict(history=h[-4:])))
                     elif det and not same:
                         out["viol"].append(("generate-token-differs:" + key, "deterministic-alg token differs from the fresh twin's", dict(history=h[-4:])))
-                    elif cfg != 0 and (refr != 1 or reff != 1):
+                    elif (cfg != 0 or act == 5) and (refr != 1 or reff != 1):
                         out["viol"].append(("generate-token-not-verifiable:" + key, "token not reference-verifiable (reused %d, fresh %d)" % (refr, reff), dict(history=h[-4:])))
                 elif bool(er) != bool(ef):
                     out["viol"].append(("generate-errorflag-differs:" + key, "error flags differ", dict(history=h[-4:])))
@@ -76,13 +81,14 @@ def collect(rep, tier, seed, replay, rd, tag=""):
 
 def run(tier, seed, replay):
     rep = vf.Report("C13", tier, seed)
-    rep.rule = ("every ordered pair (A then B, then a valid token) of a 27-member token pool (one member per failure layer plus valid ones) x "
-                "4 checker configurations x with/without error_clear x provider, every ordered pair of 5 builder actions x 5 builder "
+    rep.rule = ("every ordered pair (A then B, then a valid token) of a 33-member token pool (one member per failure layer plus valid ones) x "
+                "5 checker configurations (HS256 by setkey, with kid callback, key-less, key alg attribute, RS256) x with/without error_clear x provider, every ordered pair of 6 builder actions x 5 builder "
                 "configurations likewise, then random histories up to length 20; at every step a fresh identically configured twin is "
                 "given the same input at the same clock and return value, error flag (and message after a clear; token bytes for "
                 "deterministic algs, header+payload and reference-verifiability otherwise) are compared. distinct = distinct "
                 "(op, configuration, previous input, input, cleared, outcome) tuples")
-    rep.assumptions = ["the fresh twin is the oracle: a defect present in fresh objects too is invisible here (C01-C05 cover those)",
+    rep.assumptions = ["two oracles: a fresh twin at the same step, and the 'pristine' verdict of the same (provider, configuration, token) taken at process start "
+                       "before any failing verification (catches process- or thread-wide hidden state that a fresh twin shares)",
                        "messages are compared only when the error was cleared just before the call"]
     rd = vf.run_dir("C13")
     outs = collect(rep, tier, seed, replay, rd)
